@@ -61,7 +61,7 @@ func loadProg(repo string, goos string) (*Prog, error) {
 		}
 		env = append(env, e)
 	}
-	env = append(env, "GOWORK=off", "GOFLAGS=-mod=mod", "GOPROXY=off", "GOSUMDB=off", "GOTOOLCHAIN=local")
+	env = append(env, "GOWORK=off", "GOFLAGS=-mod=mod -trimpath", "GOPROXY=off", "GOSUMDB=off", "GOTOOLCHAIN=local")
 	if goos != "" {
 		env = append(env, "GOOS="+goos, "CGO_ENABLED=0")
 	}
